@@ -128,6 +128,8 @@ def check(case: Dict[str, Any]) -> Dict[str, Any]:
         lowered.setdefault(n.lower(), set()).add(n)
     if any(len(v) > 1 for v in lowered.values()):
         classes.append('case-variant-names')
+    if '.' in names:
+        classes.append('root-name')
     if len(packets) > 1:
         classes.append('multi-datagram')
     if pointers:
